@@ -353,17 +353,17 @@ def campaign_accepts(ck: Check, log: list) -> None:
     camp = ck.campaign("bridge.accepts (Sem.Pyd.acceptsTy ∘ tr ∘ toSchemaRoot ∘ infer on the sample itself) vs the exec'd generated root class validating the sample")
     t0 = time.time()
     seen: dict = {}
-    for doc, kind, outcome in log:
+    for doc, kind, outcome, *more in log:
         if has_float_outside_dec(doc) or kind not in STYLE_OF:
             continue
         key = (json.dumps(doc, sort_keys=True), kind)
         # a document is given in several formats: it counts as rejected if any format was rejected
         prev = seen.get(key)
         if prev is None or outcome == "sample_rejected":
-            seen[key] = (doc, kind, outcome)
+            seen[key] = (doc, kind, outcome, more[0] if more else None)
     items = list(seen.values())
-    replies = ck.driver.run([f"bridge.accepts {STYLE_OF[kind]} contype 64 {sem_sx(doc)}" for doc, kind, _ in items])
-    for (doc, kind, outcome), rep in zip(items, replies):
+    replies = ck.driver.run([f"bridge.accepts {STYLE_OF[kind]} contype 64 {sem_sx(doc)}" for doc, kind, _, _ in items])
+    for (doc, kind, outcome, cause), rep in zip(items, replies):
         camp.evaluations += 1
         parts = rep.split()
         if len(parts) != 5 or parts[0] != "ok":
@@ -394,6 +394,12 @@ def campaign_accepts(ck: Check, log: list) -> None:
             if any(c16_key_is_typename(k) for k in _all_keys(doc)):
                 camp.unmodelled += 1  # C16-member-shadows-type-name: a naming defect, not a semantic one
                 camp.hit("unmodelled:member_shadows_type_name")
+                continue
+            if cause and cause.startswith("member_shadows_"):
+                # the emitted classes have a member that hides a class of the module inside the class namespace: member and class
+                # NAMES are not part of the semantic models; the rejection is reported by the property's own oracle
+                camp.unmodelled += 1
+                camp.hit("unmodelled:" + cause)
                 continue
             ck.disagree(camp, {"document": doc, "model": kind}, verdict, "accept" if real_accepts else "reject")
         elif len(camp.samples) < 2 and 30 < len(json.dumps(doc)) < 160:
